@@ -116,3 +116,19 @@ MUTATIONS += [
     dict(id="C05-trees-no-content-accepted", prop="C05", file=CK, old="                        collector.add_error(CheckError::FileHasNoContent {", new="                        collector.add_warn(CheckError::FileHasNoContent {"),
     dict(id="C05-trees-null-blob-accepted", prop="C05", file=CK, old="                            if id.is_null() {\n                                collector.add_error(", new="                            if id.is_null() && i > 0 {\n                                collector.add_error("),
 ]
+
+# ---- C16 repair hotcold: tree packs
+RH = "crates/core/src/commands/repair/hotcold.rs"
+MUTATIONS += [
+    dict(id="C16-treepacks-skip-marked", prop="C16", file=RH, old="        for (pack, _) in index.all_packs() {\n            let blob_type = pack.blob_type();\n            if blob_type == BlobType::Tree {", new="        for (pack, marked) in index.all_packs() {\n            let blob_type = pack.blob_type();\n            if blob_type == BlobType::Tree && !marked {"),
+    dict(id="C16-treepacks-data", prop="C16", file=RH, old="            if blob_type == BlobType::Tree {\n                _ = tree_packs.insert(pack.id);", new="            if blob_type == BlobType::Data {\n                _ = tree_packs.insert(pack.id);"),
+    dict(id="C16-treepacks-empty-pack-is-tree", prop="C16", file="crates/core/src/repofile/indexfile.rs", old="        if self.blobs.is_empty() {\n            BlobType::Data", new="        if self.blobs.is_empty() {\n            BlobType::Tree"),
+]
+
+# ---- C05 check_packs as a whole
+MUTATIONS += [
+    dict(id="C05-packs-collector-gets-marked", prop="C05", file=CK, old="        index_collector.extend(index.packs.clone());", new="        index_collector.extend(index.packs.clone());\n        index_collector.extend(index.packs_to_delete.clone());"),
+    dict(id="C05-packs-marked-not-compared", prop="C05", file=CK, old="            _ = packs.insert(p.id, (pack_size, to_delete));", new="            if !to_delete {\n                _ = packs.insert(p.id, (pack_size, to_delete));\n            }"),
+    dict(id="C05-packs-time-check-inverted", prop="C05", file=CK, old="            if check_time && p.time.is_none() {", new="            if !check_time && p.time.is_none() {"),
+    dict(id="C05-packs-list-check-skipped-when-hot", prop="C05", file=CK, old="    let p = repo.progress_spinner(\"listing packs...\");\n    check_packs_list(be, &mut packs, collector)?;", new="    let p = repo.progress_spinner(\"listing packs...\");\n    if hot_be.is_none() {\n        check_packs_list(be, &mut packs, collector)?;\n    }"),
+]
